@@ -123,6 +123,15 @@ Theorem C19_push_frame : forall ops p q, forallb wf_op (ops ++ [OpPush p]) = tru
 Proof. exact push_frame. Qed.
 Print Assumptions C19_push_frame.
 
+(* the same for a direct push (a foreign referrer, a hostile manifest): a
+   content that does not name q among its successors (subject, config, layers /
+   blobs / manifests) changes nothing about q *)
+Theorem C19_raw_frame : forall ops d c q, forallb wf_op (ops ++ [OpRaw d c]) = true ->
+  refers q (mk_entry d c) = false ->
+  fst (list_sigs (state_after (ops ++ [OpRaw d c])) q) = fst (list_sigs (state_after ops) q).
+Proof. exact raw_frame. Qed.
+Print Assumptions C19_raw_frame.
+
 (* ---------- "identical envelope bytes and media type", at the level of contents ----------
    after a successful push (fresh manifest digest) and ANY later operations, the
    content stored under the returned blob descriptor IS the envelope that was
@@ -342,6 +351,15 @@ Example ex_push_frame_hyps :
   is_graph_mt (d_mt (blob_desc p3)) = false /\
   fst (list_sigs (state_after ops) S') = LOk [ I (D 1 31 610) 6 []; I (D 1 23 650) 6 [(1,2)] ].
 Proof. cbv zeta. repeat split; try discriminate; vm_compute; reflexivity. Qed.
+
+(* C19_raw_frame: the oversized referrer of S does not name S' *)
+Example ex_raw_frame_hyps :
+  match big with
+  | OpRaw d c => forallb wf_op (ex_ops ++ [big]) = true /\ refers S' (mk_entry d c) = false /\
+                 refers S (mk_entry d c) = true
+  | _ => False
+  end.
+Proof. vm_compute. auto. Qed.
 
 (* C19_listed_stays_listed / C19_roundtrip_content: p1 after five more operations *)
 Example ex_roundtrip_content :
